@@ -25,15 +25,15 @@ func (muxStream) Rule() string {
 var (
 	// (the last two of each: case variants outside ASCII, where lower-casing and case folding differ - final sigma,
 	// long s; the Lean model folds ASCII only and skips tables with such criteria, the reference oracle judges them)
-	muxBases   = []string{"", "dc=example,dc=org", "DC=EXAMPLE,DC=ORG", "ou=people,dc=example,dc=org"}
-	muxFilters = []string{"", "(cn=alice)", "(CN=ALICE)", "(uid=bob)"}
+	muxBases    = []string{"", "dc=example,dc=org", "DC=EXAMPLE,DC=ORG", "ou=people,dc=example,dc=org"}
+	muxFilters  = []string{"", "(cn=alice)", "(CN=ALICE)", "(uid=bob)"}
 	muxUniBases = []string{"OU=ΣΎΛΛΟΓΟΣ,dc=example,dc=org", "ou=σύλλογος,dc=example,dc=org",
 		// case variants whose UTF-8 encodings differ in LENGTH (capital sharp s 3 bytes / sharp s 2, Kelvin sign 3 / k 1,
 		// long s 2 / S 1); every one of them keeps a non-ASCII letter, so the ASCII-folding model skips the table
 		"ou=STRA\u1e9eE,dc=example,dc=org", "ou=stra\u00dfe,dc=example,dc=org",
 		"ou=\u212a\u00f6ln,dc=example,dc=org", "ou=k\u00f6ln,dc=example,dc=org",
 		"ou=\u017f\u00fcd,dc=example,dc=org", "ou=S\u00fcd,dc=example,dc=org"}
-	muxNames   = []string{"1.3.6.1.4.1.1466.20037", "1.3.6.1.4.1.4203.1.11.3", "1.2.3"}
+	muxNames = []string{"1.3.6.1.4.1.1466.20037", "1.3.6.1.4.1.4203.1.11.3", "1.2.3"}
 )
 
 func allRouteSpecs() []string {
